@@ -53,6 +53,10 @@ def configs(tier, seed):
                 cfgs.append(dict(name=f"samples {tag}{r}", kind="samples", rat=rat, dim=0, **base))
                 cfgs.append(dict(name=f"function {tag}{r}", kind="function", rat=rat, dim=(i % 3 == 0) * 2 * (not rat), **base))
             cfgs.append(dict(name=f"default nodes {tag}", kind="default", rat=False, dim=0, **base))
+            if p >= 1:
+                # a function outside the curve's space: least squares over the nodes the library itself samples
+                cfgs.append(dict(name=f"function outside the space {tag}", kind="function_ls", rat=False, dim=0, **base))
+                cfgs.append(dict(name=f"function outside the space {tag} rat", kind="function_ls", rat=True, dim=0, **base))
     # a case whose exact normal equations need integers beyond 64 bits
     cfgs.append(dict(name="samples p=1 mults=[2, 1, 1, 1, 2] vals=['1', '5/4', '2', '7/2', '4'] rat (big integers)", kind="samples",
                      rat=True, dim=0, p=1, mults=[2, 1, 1, 1, 2], vals=['1', '5/4', '2', '7/2', '4']))
@@ -173,6 +177,34 @@ def body(env, cfg):
         Q = list(curve.ctrlpoints)
         for c, (qc, pc) in enumerate(zip(kmode.coords(Q), kmode.coords(P0))):
             env.eq(f"fit_function reproduces a function of the curve's own space (coord {c})", list(qc), list(pc))
+        return
+
+    if kind == "function_ls":
+        coef = env.reals("c", p + 2)
+        seen = []
+
+        def f(u):
+            seen.append(u)
+            val = 0
+            for cj in reversed(coef):
+                val = val * u + cj
+            return val
+        curve.fit_function(f)
+        Q = list(curve.ctrlpoints)
+        nodes = list(seen)
+        env.holds("fit_function samples at least npts nodes, all inside the interval",
+                  len(nodes) >= kv.n and all(vals[0] <= z <= vals[-1] for z in nodes))
+        B = [colloc_row(kv, W, z) for z in nodes]
+        Z = []
+        for z in nodes:
+            val = 0
+            for cj in reversed(coef):
+                val = val * z + cj
+            Z.append(val)
+        Bt = [list(col) for col in zip(*B)]
+        resid = [a - b for a, b in zip(matvec(B, Q), Z)]
+        env.eq("fit_function: the residual over the sampled nodes is orthogonal to every column of the collocation matrix",
+               matvec(Bt, resid), [0] * kv.n)
         return
 
     if kind == "default":
